@@ -1488,6 +1488,11 @@ func (e *MetaCDC) pauseTaskWithReason(taskID, reason string, currentStates []met
 		reason)
 	if err != nil {
 		log.Warn("fail to update task reason", zap.String("task_id", taskID), zap.String("reason", reason))
+		if len(currentStates) != 0 {
+			// it's the pause request of the user, the task keeps running if its new state can't be saved,
+			// otherwise the state in the memory is different from the meta and the request result
+			return err
+		}
 	}
 	e.cdcTasks.Lock()
 	cdcTask := e.cdcTasks.data[taskID]
